@@ -1089,6 +1089,26 @@ func (r *EngineRunner) Exec(f []string) (res string) {
 		return out
 	case "orphanbatch":
 		return r.orphanBatch(atoi(f[2]))
+	case "closenoflush": // E closenoflush: Close while the operating system refuses to flush the active file (its descriptor is
+		// replaced for the duration of the call; fsync of it fails).  "Close flushes everything written so far": a Close that
+		// could not flush must not report success.  Standard I/O; the handle is abandoned afterwards (last operation).
+		{
+			if r.db == nil || r.opts.FileIOType != fio.StandardFIO {
+				return "skip"
+			}
+			aid, older := r.db.VerifFileIDs()
+			var cerr error
+			if !r.withRefusedWrites(datafile.GetFileName(r.dir(), aid, datafile.DataFileSuffix), func() { cerr = r.db.Close() }) {
+				return "skip"
+			}
+			r.db = nil
+			r.batch = nil
+			if cerr == nil {
+				r.fail("C13", "Close reported success although the flush of the active file was refused by the operating system (%d older files)", len(older))
+				return "ok"
+			}
+			return "err io"
+		}
 	case "holebatch":
 		return r.holeBatch(atoi(f[2]), atoi(f[3]))
 	case "commitfail":
